@@ -605,3 +605,271 @@ Proof.
     + rewrite (cache_in_up _ _ _ _ _ (L x) Gx Hy Ey). lia.
     + destruct (cache_in st c x); lia.
 Qed.
+
+Lemma crel_flag (R : cls -> cls -> Prop) st st' : crel R st st' -> flag st' = flag st.
+Proof. intros (_ & H & _). exact H. Qed.
+
+Lemma crel_nclasses (R : cls -> cls -> Prop) st st' : crel R st st' -> nclasses st' = nclasses st.
+Proof. intros (_ & _ & H). exact H. Qed.
+
+Lemma same_graph_bases a b : same_graph a b -> c_bases b = c_bases a.
+Proof. intros [H _]. exact H. Qed.
+Lemma same_lin_bases a b : same_lin a b -> c_bases b = c_bases a.
+Proof. intros [H _]. exact H. Qed.
+
+(* a successful assignment keeps the invariant *)
+Theorem assign_GInv st c bs st' :
+  GInv st -> flag st = false -> assign st c bs = Some st' ->
+  GInv st' /\ flag st' = false /\ nclasses st' = nclasses st.
+Proof.
+  intros GI F A. destruct (assign_unfold _ _ _ _ A) as (k & st2 & G & Hchk & Hh & E).
+  pose proof GI as [L Co So Rk]. pose proof (getc_pos _ _ _ G) as P.
+  set (st1 := setc st c (with_bases bs k)) in *.
+  assert (G1 : forall x, getc st1 x = if Z.eq_dec x c then Some (with_bases bs k) else getc st x).
+  { intros x. unfold st1. destruct (Z.eq_dec x c) as [Ex|Nx].
+    - subst x. apply (getc_setc_same _ _ _ _ G).
+    - apply getc_setc_other; [assumption|congruence]. }
+  assert (M1 : forall x, mro st1 x = mro st x).
+  { intros x. apply (mro_setc _ _ k); [assumption|reflexivity]. }
+  set (D := fun x => cache_in st c x = true).
+  assert (Dc : D c) by (exact (cache_in_self _ _ _ (L c) G)).
+  assert (S1 : forall x kx, getc st1 x = Some kx ->
+               exists kx0, getc st x = Some kx0 /\ c_subs kx0 = c_subs kx).
+  { intros x kx Gx. rewrite G1 in Gx. destruct (Z.eq_dec x c) as [Ex|Nx].
+    - subst x. inversion Gx; subst kx. exists k. split; [assumption|reflexivity].
+    - exists kx. split; [assumption|reflexivity]. }
+  assert (Cl1 : Dclosed D st1).
+  { intros x kx d Gx Dx Hd. destruct (S1 _ _ Gx) as (kx0 & Gx0 & Es). rewrite <- Es in Hd.
+    destruct (So x kx0 d Gx0 Hd) as (kd & Gd & Hx). exact (cache_in_up _ _ _ _ _ (L d) Gd Hx Dx). }
+  assert (Co1 : Dcomplete D st1).
+  { intros y ky x Gy Hx Dx. rewrite G1 in Gy. destruct (Z.eq_dec y c) as [Ey|Ny].
+    - inversion Gy; subst ky. simpl in Hx. unfold D in Dx. rewrite (Hchk x Hx) in Dx. discriminate.
+    - assert (N0 : x <> 0).
+      { intros E0. subst x. unfold D in Dx. rewrite cache_in_zero in Dx by assumption. discriminate. }
+      destruct (Co y ky x Gy Hx N0) as (kx & Gx & Hy). rewrite G1. destruct (Z.eq_dec x c) as [Ex|Nx].
+      + subst x. rewrite G in Gx. inversion Gx; subst kx. exists (with_bases bs k). split; [reflexivity|exact Hy].
+      + exists kx. split; assumption. }
+  destruct (rebase_ranked _ _ _ bs GI G Hchk) as (rk' & Hrk').
+  assert (B1 : forall x, bases_fn st1 x = if Z.eq_dec x c then bs else bases_fn st x).
+  { intros x. unfold bases_fn. rewrite G1. destruct (Z.eq_dec x c); reflexivity. }
+  assert (Ir1 : irrefl st1).
+  { intros x kx Gx Hin. assert (H : In x (bases_fn st1 x)) by (unfold bases_fn; rewrite Gx; assumption).
+    rewrite B1 in H. specialize (Hrk' x x H). lia. }
+  assert (F1 : flag st1 = false) by exact F.
+  destruct (hier_lc D (fuel_of st) st1 c st2 F1 Cl1 Co1 Ir1 Dc Hh) as [C12 P12].
+  assert (L2 : forall x, LCat st2 x).
+  { intros x. apply P12. destruct (Z.eq_dec x c) as [Ex|Nx]; [left; assumption|right].
+    intros kx Gx. rewrite G1 in Gx. destruct (Z.eq_dec x c); [contradiction|].
+    destruct (L x kx Gx) as (ms & Hm & Hl). exists ms. split; [|assumption].
+    rewrite <- Hm. apply map_opt_ext. intros b _. apply M1. }
+  destruct (remove_sub_spec c (c_bases k) st2) as [C23 S23].
+  set (st3 := remove_sub c (c_bases k) st2) in *.
+  destruct (add_sub_spec c bs st3) as [C34 S34]. rewrite <- E in C34, S34.
+  assert (FW : forall x kx1, getc st1 x = Some kx1 ->
+            exists kx', getc st' x = Some kx' /\ c_bases kx' = c_bases kx1 /\
+              forall y, In y (c_subs kx') <->
+                (In y (c_subs kx1) /\ (~ In x (c_bases k) \/ y <> c)) \/ (In x bs /\ y = c)).
+  { intros x kx1 Gx1.
+    destruct (crel_getc_fwd _ _ _ _ _ C12 Gx1) as (k2 & G2 & (E2b & E2s)).
+    destruct (crel_getc_fwd _ _ _ _ _ C23 G2) as (k3 & G3 & (E3b & _)).
+    destruct (crel_getc_fwd _ _ _ _ _ C34 G3) as (k4 & G4 & (E4b & _)).
+    exists k4. split; [assumption|]. split; [congruence|].
+    intros y. rewrite (S34 x k3 k4 G3 G4 y), (S23 x k2 k3 G2 G3 y), E2s. tauto. }
+  assert (BW : forall x kx', getc st' x = Some kx' -> exists kx1, getc st1 x = Some kx1).
+  { intros x kx' Gx'.
+    destruct (crel_getc _ _ _ _ _ C34 Gx') as (k3 & G3 & _).
+    destruct (crel_getc _ _ _ _ _ C23 G3) as (k2 & G2 & _).
+    destruct (crel_getc _ _ _ _ _ C12 G2) as (k1 & Gk1 & _). exists k1. assumption. }
+  assert (L4 : forall x, LCat st' x).
+  { intros x. apply (LCat_crel _ _ _ C34). apply (LCat_crel _ _ _ C23). apply L2. }
+  assert (B4 : forall x, bases_fn st' x = bases_fn st1 x).
+  { intros x. rewrite (bases_fn_crel _ _ _ same_lin_bases C34), (bases_fn_crel _ _ _ same_lin_bases C23).
+    apply (bases_fn_crel _ _ _ same_graph_bases C12). }
+  split; [|split].
+  - constructor.
+    + exact L4.
+    + (* complete *)
+      intros y ky' x Gy' Hx N0. destruct (BW _ _ Gy') as (ky1 & Gy1).
+      destruct (FW _ _ Gy1) as (ky'' & Gy'' & Eb & _). rewrite Gy' in Gy''. inversion Gy''; subst ky''.
+      pose proof Gy1 as Gy1'. rewrite G1 in Gy1'. destruct (Z.eq_dec y c) as [Ey|Ny].
+      * subst y. inversion Gy1'; subst ky1. simpl in Eb.
+        destruct (lc_base_mro _ _ _ _ (L4 c ky' Gy') Hx) as (m & Em).
+        destruct (mro_Some_cases _ _ _ Em) as [[E0 _]|(kx' & Gx' & _)]; [contradiction|].
+        exists kx'. split; [assumption|]. destruct (BW _ _ Gx') as (kx1 & Gx1).
+        destruct (FW _ _ Gx1) as (kx'' & Gx'' & _ & Hs). rewrite Gx' in Gx''. inversion Gx''; subst kx''.
+        apply Hs. right. split; [rewrite <- Eb; assumption|reflexivity].
+      * rewrite Eb in Hx. destruct (Co y ky1 x Gy1' Hx N0) as (kx & Gx & Hy).
+        assert (Gx1 : exists kx1, getc st1 x = Some kx1 /\ c_subs kx1 = c_subs kx).
+        { rewrite G1. destruct (Z.eq_dec x c) as [Ex|Nx].
+          - subst x. rewrite G in Gx. inversion Gx; subst kx. exists (with_bases bs k). split; reflexivity.
+          - exists kx. split; [assumption|reflexivity]. }
+        destruct Gx1 as (kx1 & Gx1 & Es). destruct (FW _ _ Gx1) as (kx' & Gx' & _ & Hs).
+        exists kx'. split; [assumption|]. apply Hs. left. rewrite Es. split; [assumption|right; assumption].
+    + (* sound *)
+      intros x kx' d Gx' Hd. destruct (BW _ _ Gx') as (kx1 & Gx1).
+      destruct (FW _ _ Gx1) as (kx'' & Gx'' & _ & Hs). rewrite Gx' in Gx''. inversion Gx''; subst kx''.
+      apply Hs in Hd. destruct Hd as [[Hd Hn]|[Hxb Ed]].
+      * destruct (S1 _ _ Gx1) as (kx0 & Gx0 & Es). rewrite <- Es in Hd.
+        destruct (So x kx0 d Gx0 Hd) as (kd & Gd & Hx).
+        assert (Nd : d <> c).
+        { intros Ed. subst d. rewrite G in Gd. inversion Gd; subst kd. destruct Hn as [Hn|Hn]; [apply Hn; exact Hx|congruence]. }
+        assert (Gd1 : getc st1 d = Some kd) by (rewrite G1; destruct (Z.eq_dec d c); [contradiction|assumption]).
+        destruct (FW _ _ Gd1) as (kd' & Gd' & Eb & _). exists kd'. split; [assumption|]. rewrite Eb. assumption.
+      * subst d. assert (Gc1 : getc st1 c = Some (with_bases bs k)) by (rewrite G1; destruct (Z.eq_dec c c); [reflexivity|contradiction]).
+        destruct (FW _ _ Gc1) as (kc' & Gc' & Eb & _). exists kc'. split; [assumption|]. rewrite Eb. exact Hxb.
+    + exists rk'. intros x y Hy. rewrite B4, B1 in Hy. apply Hrk'. assumption.
+  - rewrite (crel_flag _ _ _ C34), (crel_flag _ _ _ C23), (crel_flag _ _ _ C12). exact F.
+  - rewrite (crel_nclasses _ _ _ C34), (crel_nclasses _ _ _ C23), (crel_nclasses _ _ _ C12). apply nclasses_setc.
+Qed.
+
+(* ---------- the flag ---------- *)
+
+Lemma fold_hier_flag (h : state -> Z -> option state) :
+  (forall s x s', h s x = Some s' -> flag s' = flag s) ->
+  forall subs s0 s', fold_left (fun acc d => obind acc (fun s => h s d)) subs (Some s0) = Some s' -> flag s' = flag s0.
+Proof.
+  intros Hh. induction subs as [|d r IH]; intros s0 s' H; simpl in H.
+  - inversion H; subst. reflexivity.
+  - destruct (h s0 d) as [s1|] eqn:E; [|rewrite fold_obind_None in H; discriminate].
+    rewrite (IH _ _ H). eapply Hh; eauto.
+Qed.
+
+Lemma hier_flag fuel : forall st x st', hier fuel st x = Some st' -> flag st' = flag st.
+Proof.
+  induction fuel as [|f IH]; intros st x st' H; [discriminate|]. simpl in H.
+  destruct (getc st x) as [k|]; [|discriminate].
+  destruct (linearize_cached st x (c_bases k)) as [l|]; [|discriminate].
+  rewrite (fold_hier_flag (hier f) IH _ _ _ H). reflexivity.
+Qed.
+
+Lemma assign_flag st c bs st' : assign st c bs = Some st' -> flag st' = flag st.
+Proof.
+  intros A. destruct (assign_unfold _ _ _ _ A) as (k & st2 & G & _ & Hh & E). subst st'.
+  destruct (add_sub_spec c bs (remove_sub c (c_bases k) st2)) as [C2 _].
+  destruct (remove_sub_spec c (c_bases k) st2) as [C1 _].
+  rewrite (crel_flag _ _ _ C2), (crel_flag _ _ _ C1), (hier_flag _ _ _ _ Hh). reflexivity.
+Qed.
+
+(* _update_supertypes: when the replacement is not installed afterwards, it was
+   not installed before, one of the two C3 attempts succeeded, and the
+   invariant is kept *)
+Theorem update_supertypes_GInv st c st' r :
+  (flag st = false -> GInv st) -> update_supertypes st c = (st', r) -> flag st' = false ->
+  GInv st' /\ flag st = false /\ r = None.
+Proof.
+  intros HI U F'. unfold update_supertypes in U.
+  destruct (assign st c (compute_supertypes (supers_fn st c))) as [s1|] eqn:A1.
+  - inversion U; subst. pose proof (assign_flag _ _ _ _ A1) as Ff. rewrite F' in Ff. symmetry in Ff.
+    destruct (assign_GInv _ _ _ _ (HI Ff) Ff A1) as (H1 & _ & _). tauto.
+  - match type of U with context [assign st c ?bs2] => destruct (assign st c bs2) as [s2|] eqn:A2 end.
+    + inversion U; subst. pose proof (assign_flag _ _ _ _ A2) as Ff. rewrite F' in Ff. symmetry in Ff.
+      destruct (assign_GInv _ _ _ _ (HI Ff) Ff A2) as (H1 & _ & _). tauto.
+    + match type of U with context [assign (set_flag st) c ?bs2] =>
+        destruct (assign (set_flag st) c bs2) as [s3|] eqn:A3 end.
+      * inversion U; subst. pose proof (assign_flag _ _ _ _ A3) as Ff. rewrite F' in Ff. discriminate.
+      * inversion U; subst. discriminate.
+Qed.
+
+(* ---------- the edits that leave the Python class graph alone ---------- *)
+
+Definition cf_eq (st st' : state) : Prop := classes st' = classes st /\ flag st' = flag st.
+
+Lemma cf_refl st : cf_eq st st. Proof. split; reflexivity. Qed.
+
+Lemma cf_trans a b c : cf_eq a b -> cf_eq b c -> cf_eq a c.
+Proof. unfold cf_eq. intuition congruence. Qed.
+
+Lemma cf_set_slot st i n s : cf_eq st (set_slot st i n s).
+Proof. unfold set_slot. destruct (geti st i); split; reflexivity. Qed.
+
+Lemma cf_getattr st i n : cf_eq st (fst (getattr_m st i n)).
+Proof.
+  unfold getattr_m. destruct (geti st i) as [x|]; [|apply cf_refl].
+  destruct (class_lookup st (i_cls x) n) as [[f|s|b]|]; destruct (ns_get n (i_dict x)) as [[? ?|? ?|?]|];
+    simpl; try apply cf_refl; apply cf_set_slot.
+Qed.
+
+Lemma cf_setattr st i n v : cf_eq st (fst (setattr_m st i n v)).
+Proof.
+  unfold setattr_m. destruct (geti st i) as [x|]; [|apply cf_refl].
+  destruct (class_lookup st (i_cls x) n) as [[f|s|b]|]; simpl; try apply cf_set_slot.
+  destruct (ns_get n (i_dict x)) as [sl|]; simpl.
+  - destruct sl as [fs v0|fs vs|v0]; simpl; try apply cf_refl.
+    destruct (conforms st (f_type fs) v); simpl; [apply cf_set_slot|apply cf_refl].
+  - destruct (default_slot f) as [fs v0|fs vs|v0]; simpl; try apply cf_set_slot.
+    destruct (conforms _ (f_type fs) v); simpl; [|apply cf_set_slot].
+    eapply cf_trans; apply cf_set_slot.
+Qed.
+
+Lemma cf_append st i n v : cf_eq st (fst (append_m st i n v)).
+Proof.
+  unfold append_m. pose proof (cf_getattr st i n) as G.
+  destruct (getattr_m st i n) as [st1 g]. simpl in G.
+  destruct (geti st1 i) as [x|]; [|assumption].
+  destruct (ns_get n (i_dict x)) as [[? ?|f vs|?]|]; try assumption.
+  destruct (conforms st1 (f_type f) v && negb ((v =? -1) && (0 <? f_type f))); simpl; [|assumption].
+  eapply cf_trans; [exact G|apply cf_set_slot].
+Qed.
+
+Lemma crel_cf st st' : cf_eq st st' -> crel same_py st st'.
+Proof.
+  intros [Ec Ef]. split; [|split; [assumption|unfold nclasses; rewrite Ec; reflexivity]].
+  intros x. rewrite (getc_classes_eq _ _ x Ec). unfold orel2. destruct (getc st x); [apply same_py_refl|exact Logic.I].
+Qed.
+
+Lemma crel_upd_cls (R : cls -> cls -> Prop) st c f :
+  (forall a, R a a) -> (forall k, R k (f k)) -> crel R st (upd_cls st c f).
+Proof.
+  intros Rr Rf. unfold upd_cls. destruct (getc st c) as [k|] eqn:G; [|apply crel_refl; assumption].
+  eapply crel_setc; eauto.
+Qed.
+
+Lemma crel_py_setc st c k k' : getc st c = Some k -> same_py k k' -> crel same_py st (setc st c k').
+Proof. intros G H. eapply crel_setc; eauto. exact same_py_refl. Qed.
+
+Definition graph_op (o : op) : bool :=
+  match o with NewClass _ | AddSuper _ _ | RemoveSuper _ _ => true | _ => false end.
+
+Lemma step_other_crel o st : graph_op o = false -> crel same_py st (next st o).
+Proof.
+  intros NG. pose proof (crel_refl same_py st same_py_refl) as Rf.
+  destruct o; try discriminate; unfold next; simpl.
+  - (* AddFeat *)
+    destruct (getc st c) as [k|] eqn:G; simpl; [|exact Rf]. eapply crel_py_setc; eauto. repeat split.
+  - (* RemoveFeat *)
+    destruct (getc st c) as [k|] eqn:G; simpl; [|exact Rf].
+    destruct (remove_feat n (c_feats k)) as [fs|]; simpl; [|exact Rf].
+    destruct (ns_del n (c_ns k)) as [ns|]; simpl; eapply crel_py_setc; eauto; repeat split.
+  - (* ClearFeats *)
+    destruct (getc st c) as [k|] eqn:G; simpl; [|exact Rf].
+    destruct (del_all (c_ns k) (map f_name (c_feats k))) as [ns ok]. simpl.
+    eapply crel_py_setc; eauto. repeat split.
+  - (* AddOp *)
+    unfold add_oper. destruct (getc st c) as [k|] eqn:G; simpl; [|exact Rf].
+    assert (C1 : crel same_py st (setc st c (with_ops (c_ops k ++ [o]) k))) by (eapply crel_py_setc; eauto; repeat split).
+    destruct (py_def (to_code (o_name o) (o_params o))) as [[]|s]; simpl; [exact C1|].
+    eapply crel_trans; [exact same_py_trans|exact C1|]. apply crel_upd_cls; [exact same_py_refl|]. intros k0. repeat split.
+  - (* RemoveOp *)
+    destruct (getc st c) as [k|] eqn:G; simpl; [|exact Rf].
+    destruct (remove_oper n (c_ops k)) as [os|]; simpl; [|exact Rf].
+    destruct (ns_del (normalized_name n) (c_ns k)) as [ns|]; simpl; eapply crel_py_setc; eauto; repeat split.
+  - (* ClearOps *)
+    destruct (getc st c) as [k|] eqn:G; simpl; [|exact Rf].
+    destruct (del_all (c_ns k) (map (fun o => normalized_name (o_name o)) (c_ops k))) as [ns ok]. simpl.
+    eapply crel_py_setc; eauto. repeat split.
+  - (* Attach *)
+    destruct (getc st c) as [k|] eqn:G; simpl; [|exact Rf]. eapply crel_py_setc; eauto. repeat split.
+  - (* NewInst *)
+    destruct (getc st c); simpl; [|exact Rf]. apply crel_cf. split; reflexivity.
+  - (* Get *)
+    pose proof (cf_getattr st i n) as C. destruct (getattr_m st i n) as [st1 g]. simpl in C.
+    apply crel_cf. destruct g; exact C.
+  - (* SetA *) apply crel_cf. apply cf_setattr.
+  - (* Append *) apply crel_cf. apply cf_append.
+  - (* Call *)
+    pose proof (cf_getattr st i n) as C. destruct (getattr_m st i n) as [st1 g]. simpl in C.
+    apply crel_cf. destruct g; exact C.
+  - (* Sig *)
+    pose proof (cf_getattr st i n) as C. destruct (getattr_m st i n) as [st1 g]. simpl in C.
+    apply crel_cf. destruct g; exact C.
+Qed.
